@@ -184,6 +184,8 @@ class SDFS(SubFS):
             mode += 'b'
         if 't' in mode:
             raise NotImplementedError('text mode is not supported')
+        # sub-directory views (WrapFS.open) pass this text-mode argument, which openbin does not accept
+        options.pop('line_buffering', None)
         # noinspection PyTypeChecker
         return self.openbin(path, mode, buffering, **options)
 
